@@ -482,7 +482,13 @@ func c06R4(c *Ctx, r *Report, rule string) {
 			}
 			n++
 			call := ci.(*ssa.Call)
-			r.check(reviewed[name], rule, name, "uses MatchingBytes", c.ipos(ci), "reviewed use of the buffered-bytes view", "MatchingBytes() is used in a function that is not reviewed for it: a verdict derived from the amount of buffered data must answer need-more, never a definite 'no' (see C06.R3)")
+			isReviewed := false
+			for _, h := range c.homeChain(fn) { // a helper with one caller belongs to that caller
+				if reviewed[fname(h)] {
+					isReviewed = true
+				}
+			}
+			r.check(isReviewed, rule, name, "uses MatchingBytes", c.ipos(ci), "reviewed use of the buffered-bytes view", "MatchingBytes() is used in a function that is not reviewed for it: a verdict derived from the amount of buffered data must answer need-more, never a definite 'no' (see C06.R3)")
 			// writes through the view
 			bad := ""
 			var visit func(v ssa.Value, d int)
@@ -556,14 +562,26 @@ func c06R4(c *Ctx, r *Report, rule string) {
 			r.check(eofAsAnswer == "", rule, name, "view not parsed as the stream", c.ipos(ci), "errors of reads over the snapshot are not returned", "the matcher parses a reader built over the MatchingBytes() snapshot ("+eofAsAnswer+") and returns its error: at the end of the buffered bytes that is io.EOF/ErrUnexpectedEOF, not ErrConsumedAllPrefetchedBytes - the router treats it as a matcher failure and drops the connection instead of waiting for the rest of the message")
 		}
 	}
-	// http need-more answer
-	if fn := c.Fn("modules/l4http.(*MatchHTTP).Match"); fn != nil {
+	// http need-more answer (in Match or the helper of it that calls isHttp)
+	if matchFn := c.Fn("modules/l4http.(*MatchHTTP).Match"); matchFn != nil {
+		fn := matchFn
 		var needMore ssa.Value
-		for _, ci := range callsIn(fn) {
-			if strings.HasSuffix(calleeID(ci), ".isHttp") {
-				if call, ok := ci.(*ssa.Call); ok {
-					if e := extractOf(call, 0); e != nil {
-						needMore = e
+		for _, g := range c.Funcs {
+			inMatch := false
+			for _, h := range c.homeChain(g) {
+				if h == matchFn {
+					inMatch = true
+				}
+			}
+			if !inMatch {
+				continue
+			}
+			for _, ci := range callsIn(g) {
+				if strings.HasSuffix(calleeID(ci), ".isHttp") {
+					if call, ok := ci.(*ssa.Call); ok {
+						if e := extractOf(call, 0); e != nil {
+							needMore, fn = e, g
+						}
 					}
 				}
 			}
@@ -581,7 +599,7 @@ func c06R4(c *Ctx, r *Report, rule string) {
 						continue
 					}
 					if ret, ok := blk.Instrs[len(blk.Instrs)-1].(*ssa.Return); ok {
-						os := origins(ret.Results[len(ret.Results)-1], sliceOpts{})
+						os := c.originsIP(fn, ret.Results[len(ret.Results)-1], 2)
 						if !(hasOrigin(os, "global", "layer4.ErrConsumedAllPrefetchedBytes") || hasOrigin(os, "global", "layer4.ErrMatchingBufferFull")) {
 							good = false
 							detail = "on the need-more edge the http matcher returns {" + originKinds(os) + "} instead of ErrConsumedAllPrefetchedBytes/ErrMatchingBufferFull at " + c.ipos(ret)
